@@ -41,6 +41,14 @@ rows exist on the objects' shards is a violation ("every flushed object is writt
 shard ..."); unpickled objects must keep ``state.identity_token == key[2]`` and their
 identity keys across flushes.
 
+Further histories with equal pks across shards: ``merge()`` (load True / False) of detached
+objects of every shard into a session that holds the objects of another shard (the result
+must carry the source's identity key, token included, and be flushed to that shard);
+``refresh``; eager loading of ``Station.reports`` with selectinload / subqueryload /
+joinedload (children of the parent's shard only); joined-table inheritance (Device / Probe /
+Gauge) whose subclass columns are loaded by a second statement (deferred "optimized get",
+polymorphic selectin).
+
 Guards: merged multi-shard results are concatenations, so order is never judged;
 aggregates / LIMIT across shards are not generated (per-shard semantics are documented);
 a station's region is never edited (identity tokens are fixed at load, by design).
@@ -63,7 +71,9 @@ META = {
                 "restricted_queries", "gets_compared", "lazy_loads_compared", "bulk_dml_compared",
                 "shard_chooser_calls", "execute_chooser_calls", "identity_chooser_calls",
                 "distinct_same_pk_entities", "multi_shard_update_flushes",
-                "multi_shard_update_flushes_with_equal_pk", "pickle_cycles"],
+                "multi_shard_update_flushes_with_equal_pk", "pickle_cycles", "merge_cycles_load_True",
+                "merge_cycles_load_False", "merges_with_other_shard_same_pk_loaded", "refreshes_compared",
+                "eager_loads_compared", "subclass_attribute_loads_compared"],
     "assumptions": ["raw sqlite3 reads of a shard file show its committed rows"],
 }
 
@@ -89,8 +99,8 @@ class Env:
 
         for p in self.paths.values():
             con = sqlite3.connect(p)
-            con.execute("DELETE FROM gm_report")
-            con.execute("DELETE FROM gm_station")
+            for t in ("gm_probe", "gm_gauge", "gm_device", "gm_report", "gm_station"):
+                con.execute("DELETE FROM %s" % t)
             con.commit()
             con.close()
 
@@ -109,6 +119,9 @@ class Env:
             out[n] = {
                 "station": {r[0]: r for r in self.raw(n, "SELECT id, region, name, level FROM gm_station")},
                 "report": {r[0]: r for r in self.raw(n, "SELECT id, station_id, temp, tag FROM gm_report")},
+                "device": {r[0]: r for r in self.raw(
+                    n, "SELECT d.id, d.kind, d.label, COALESCE(p.depth, g.width) FROM gm_device d "
+                       "LEFT JOIN gm_probe p ON p.id = d.id LEFT JOIN gm_gauge g ON g.id = d.id")},
             }
         return out
 
@@ -144,6 +157,8 @@ class Program:
                 res = self.names[0]
             elif isinstance(instance, M.Station):
                 res = shard_for_station(instance)
+            elif isinstance(instance, M.Device):
+                res = self.names[sum(map(ord, instance.label or "")) % n]
             else:
                 res = sa.inspect(instance.station).identity_token or shard_for_station(instance.station)
             self.log.append(("shard", id(instance) if instance is not None else None, res))
@@ -178,7 +193,7 @@ class Program:
 
         self.session = ShardedSession(shard_chooser=shard_chooser, identity_chooser=identity_chooser,
                                       execute_chooser=execute_chooser, shards=dict(env.engines))
-        self.model = {s: {"station": {}, "report": {}} for s in self.names}
+        self.model = {s: {"station": {}, "report": {}, "device": {}} for s in self.names}
         self.objs = []      # strong refs: (obj, kind, shard, pk)
 
     def last(self, kind):
@@ -208,7 +223,7 @@ def run_program(env, prog, k):
         ctx.count("commits_compared")
         got = env.dump()
         for s in names:
-            for tab in ("station", "report"):
+            for tab in ("station", "report", "device"):
                 exp = prog.model[s][tab]
                 g = got[s][tab]
                 ctx.count("rows_placed_checked", len(exp))
@@ -265,10 +280,27 @@ def run_program(env, prog, k):
         vals = {"station": (st.region, st.name, st.level), "reports": [(r.id, r.temp, r.tag) for r in reports]}
         created.append((st, shard, vals))
         sess.add(st)
+    devs = []
+    used_dev = {s: set() for s in names}
+    for i in range(rng.randint(3, 7)):
+        label = "dv%d%s" % (i, rng.choice("abcdefgh"))
+        shard = names[sum(map(ord, label)) % len(names)]
+        free = [p for p in (1, 2, 3) if p not in used_dev[shard]]
+        if not free:
+            continue
+        used_dev[shard].add(free[0])
+        extra = rng.randint(1, 999)
+        d_ = M.Probe(id=free[0], label=label, depth=extra) if i % 2 else M.Gauge(id=free[0], label=label, width=extra)
+        devs.append((d_, (free[0], "probe" if i % 2 else "gauge", label, extra)))
+        sess.add(d_)
     mark = len(prog.log)
     sess.commit()
     # placement model from the LOGGED shard_chooser decisions and the constructor values
     decided = {rec[1]: rec[2] for rec in prog.log[mark:] if rec[0] == "shard"}
+    for d_, row in devs:
+        if decided.get(id(d_)) is None:
+            raise RuntimeError("no shard_chooser call logged for a flushed device")
+        prog.model[decided[id(d_)]]["device"][row[0]] = row
     for st, planned, vals in created:
         shard = decided.get(id(st))
         if shard is None:
@@ -329,7 +361,8 @@ def run_program(env, prog, k):
         op = rng.choice(["q_all", "q_region", "q_region_in", "q_level", "q_cols", "q_join", "q_shard_opt", "q_bind_arg",
                          "q_legacy", "q_legacy_set_shard", "q_identity_token", "get_token", "get_plain", "lazy_reports",
                          "lazy_station", "edit", "insert_report", "delete_report", "bulk_update", "bulk_delete",
-                         "insert_station", "edit_many", "edit_many", "pickle_cycle"])
+                         "insert_station", "edit_many", "edit_many", "pickle_cycle", "merge_cycle", "merge_cycle",
+                         "refresh_all", "eager_reports", "device_attrs"])
         regions_in_use = REGIONS[: desc["nregions"]]
         r1 = rng.choice(regions_in_use)
         r2 = rng.choice(regions_in_use)
@@ -614,6 +647,118 @@ def run_program(env, prog, k):
                             vio("unpickled-objects-collapsed-in-session", "after flush %d not all %d objects are in the session" % (rnd, len(copies)))
                             return
                 sess.expire_all()
+            elif op == "merge_cycle":
+                # detached objects of every shard (equal pks across shards) are merged into a
+                # session that holds only objects of ANOTHER shard: each merge must resolve to
+                # the source's own identity (token included) and be flushed to that shard
+                sess.expire_all()
+                which = rng.choice(["station", "station", "report"])
+                cls_, tab = (S, "station") if which == "station" else (Rp, "report")
+                sources = sess.execute(sa.select(cls_)).scalars().all()
+                if not sources:
+                    continue
+                sess.expunge_all()
+                load = rng.random() < 0.7
+                preload = rng.choice(names)
+                held = sess.execute(sa.select(cls_).options(set_shard_id(preload))).scalars().all()
+                held_keys = {sa.inspect(o).key for o in held}
+                ctx.count("merge_cycles_load_%s" % load)
+                merged = []
+                for d_ in sources:
+                    key = sa.inspect(d_).key
+                    if load:
+                        if which == "station":
+                            d_.level = (d_.level or 0) + 3
+                        else:
+                            d_.temp = (d_.temp or 0) + 3
+                    if key not in held_keys and any(k2[1] == key[1] for k2 in held_keys):
+                        ctx.count("merges_with_other_shard_same_pk_loaded")
+                    try:
+                        m_ = sess.merge(d_, load=load)
+                    except Exception as e:
+                        sess.rollback()
+                        vio("sharded-merge-raised-%s" % type(e).__name__, "merge(load=%s) of %s: %s" % (load, key, str(e)[:200]))
+                        return
+                    mk = sa.inspect(m_).key
+                    if mk != key:
+                        vio("merge-resolved-to-other-shard-identity", "merge(load=%s) of %s returned the instance %s" % (load, key, mk))
+                        return
+                    if sa.inspect(m_).identity_token != key[2]:
+                        vio("merged-identity-token-differs-from-key", "key %s token %r" % (key, sa.inspect(m_).identity_token))
+                        return
+                    merged.append(m_)
+                    if load:
+                        row = list(prog.model[key[2]][tab][key[1][0]])
+                        row[3 if which == "station" else 2] = d_.level if which == "station" else d_.temp
+                        prog.model[key[2]][tab][key[1][0]] = tuple(row)
+                if len({id(x) for x in merged}) != len(merged):
+                    vio("merge-collapsed-same-pk-objects", "distinct identities were merged onto one instance")
+                    return
+                if not load:
+                    # results of load=False are clean; change them now, the flush must route
+                    for m_ in merged:
+                        key = sa.inspect(m_).key
+                        row = list(prog.model[key[2]][tab][key[1][0]])
+                        if which == "station":
+                            m_.level = (m_.level or 0) + 5
+                            row[3] = m_.level
+                        else:
+                            m_.temp = (m_.temp or 0) + 5
+                            row[2] = m_.temp
+                        prog.model[key[2]][tab][key[1][0]] = tuple(row)
+                try:
+                    sess.commit()
+                except Exception as e:
+                    sess.rollback()
+                    vio("sharded-flush-raised-%s-after-merge" % type(e).__name__, "%s: %s" % (type(e).__name__, str(e)[:300]))
+                    return
+                if not compare_files("after-merge"):
+                    return
+                sess.expire_all()
+            elif op == "refresh_all":
+                sess.expire_all()
+                objs = sess.execute(sa.select(S)).scalars().all()
+                for o in objs:
+                    key = sa.inspect(o).key
+                    sess.refresh(o)
+                    ctx.count("refreshes_compared")
+                    row = prog.model[key[2]]["station"].get(key[1][0])
+                    if sa.inspect(o).key != key or row is None or (o.id, o.region, o.name, o.level) != tuple(row):
+                        vio("refresh-crossed-shards", "refresh of %s gave %s, its shard row %s" % (key, (o.id, o.region, o.name, o.level), row))
+                        return
+            elif op == "eager_reports":
+                how = rng.choice(["selectin", "subquery", "joined", "selectin"])
+                sess.expire_all()
+                sess.expunge_all()
+                opt_ = {"selectin": orm.selectinload, "subquery": orm.subqueryload, "joined": orm.joinedload}[how](S.reports)
+                parents = sess.execute(sa.select(S).options(opt_)).unique().scalars().all()
+                for p in parents:
+                    tok = sa.inspect(p).identity_token
+                    got = sorted((sa.inspect(r).identity_token, r.id, r.station_id, r.temp, r.tag) for r in p.__dict__.get("reports", ()))
+                    exp = sorted((tok,) + tuple(r) for r in prog.model[tok]["report"].values() if r[1] == p.id)
+                    ctx.count("eager_loads_compared")
+                    if "reports" not in p.__dict__:
+                        vio("eager-load-did-not-load-%s" % how, "station %s@%s" % (p.id, tok))
+                        return
+                    if got != exp:
+                        vio("%sload-children-crossed-shards" % how, "station %s@%s reports %s expected %s" % (p.id, tok, got, exp))
+                        return
+            elif op == "device_attrs":
+                # joined inheritance: subclass columns come from a second statement
+                sess.expire_all()
+                sess.expunge_all()
+                ds = sess.execute(sa.select(M.Device)).scalars().all()
+                for d_ in ds:
+                    key = sa.inspect(d_).key
+                    row = prog.model[key[2]]["device"].get(key[1][0])
+                    attr = "depth" if isinstance(d_, M.Probe) else "width"
+                    pre_loaded = attr in d_.__dict__
+                    val = getattr(d_, attr)
+                    ctx.count("subclass_attribute_loads_compared")
+                    if row is None or (d_.id, d_.kind, d_.label, val) != tuple(row):
+                        vio("joined-inheritance-%s-crossed-shards" % ("polymorphic-selectin-load" if pre_loaded else "deferred-subclass-load"),
+                            "%s %s: (%s, %s, %s, %s) but its shard row is %s" % (type(d_).__name__, key, d_.id, d_.kind, d_.label, val, row))
+                        return
             elif op in ("bulk_update", "bulk_delete"):
                 sync = rng.choice(["evaluate", "fetch", "auto"])
                 sess.expire_all()
